@@ -135,6 +135,7 @@ type behaviour struct {
 	garbage bool          // reply with undecodable bytes
 	rcode   int
 	partial bool // tcp: send half a frame then stall
+	closeAfter bool // tcp: close the connection right after the reply (stale pooled connection)
 }
 
 type script func(ex int, proto string) behaviour
@@ -331,6 +332,10 @@ func (s *server) handleTCP(c net.Conn) {
 			if bb.dup {
 				c.Write(f)
 			}
+			if bb.closeAfter {
+				time.Sleep(time.Duration(tok%4) * time.Millisecond)
+				c.Close()
+			}
 		}
 		go func() {
 			if b.delay > 0 {
@@ -360,6 +365,7 @@ func readFull(c net.Conn, b []byte) (int, error) {
 
 var exCtr atomic.Int32
 var oversize bool
+var workerPause time.Duration
 
 type exchanger interface {
 	ExchangeContext(ctx context.Context, m []byte) (*dnsmsg.Msg, error)
@@ -434,6 +440,9 @@ func runWorkers(u exchanger, workers, perWorker int, tmin, tmax time.Duration, q
 			for i := 0; i < perWorker; i++ {
 				to := tmin + time.Duration(rng.Int63n(int64(tmax-tmin)+1))
 				doExchange(u, rng, to, quiet)
+				if workerPause > 0 && rng.Intn(4) == 0 {
+					time.Sleep(time.Duration(rng.Int63n(int64(workerPause))))
+				}
 			}
 		}(w)
 	}
